@@ -89,9 +89,25 @@ impl<'a> Gen<'a> {
     fn element(&mut self, depth: usize, scope: &mut gen::Scope) -> ANode {
         self.budget = self.budget.saturating_sub(1);
         let kind = self.rng.pick_weighted(&[12, if self.xhtml_share { 6 } else { 0 }, 2, 3, 2]);
+        // HTML names in lower, upper, capitalised and random letter case; every void name is in the pool
+        let mut html_name = |rng: &mut Rng| -> String {
+            let base: &str = if rng.chance(1, 3) { *rng.pick(VOID_JUDGED) } else if rng.chance(1, 12) { *rng.pick(VOID_LEGACY) } else { *rng.pick(HTML_NAMES) };
+            match rng.below(5) {
+                0 | 1 => base.to_string(),
+                2 => base.to_ascii_uppercase(),
+                3 => {
+                    let mut c = base.chars();
+                    match c.next() {
+                        Some(f) => f.to_ascii_uppercase().to_string() + c.as_str(),
+                        None => String::new(),
+                    }
+                }
+                _ => base.chars().map(|ch| if rng.bool() { ch.to_ascii_uppercase() } else { ch.to_ascii_lowercase() }).collect(),
+            }
+        };
         let (ns, local): (String, String) = match kind {
-            0 => (String::new(), self.rng.pick(HTML_NAMES).to_string()),
-            1 => (XHTML_NS.to_string(), self.rng.pick(HTML_NAMES).to_string()),
+            0 => (String::new(), html_name(self.rng)),
+            1 => (XHTML_NS.to_string(), html_name(self.rng)),
             2 => (MATHML_NS.to_string(), self.rng.pick(MATH_NAMES).to_string()),
             3 => (SVG_NS.to_string(), self.rng.pick(SVG_NAMES).to_string()),
             _ => ("urn:A".to_string(), self.rng.pick(&["island", "x", "item"]).to_string()),
